@@ -8,9 +8,13 @@
    [table_of c] is the table runCrawler installs for it; [get_closest] is
    GetClosestPeers, [Ok l] / [Panic] / [Blocked] (does not return).
 
-   Seven clauses of the property are FALSE of the code as it is.  Each has a
-   [_refuted] theorem with a concrete witness; each witness was replayed on the
-   real code by harness/fullrt/c16_test.go (see props/C16.py for the keys). *)
+   History: on the snapshot seven clauses were false of the code (mixed read
+   between three swap steps, step-0 spin and whole-table answer with K = 0,
+   divide by zero on an empty table, dropped limit option, duplicate starting
+   peers, a peer with two addresses in one group skipped).  They were replayed
+   on the real code, repaired in /repo (554fc14 7521410 bdffa69 69fc371 fb69ae6
+   19e6b03), and the model and the theorems below describe the repaired code.
+   The harness keeps the inputs that triggered each of them. *)
 From Coq Require Import Permutation Sorting.Sorted.
 From Verif.Lib Require Import GoSem Bits.
 From Verif.Model Require Import FullRt Crawler.
@@ -52,95 +56,69 @@ Proof. exact group_limit. Qed.
 Print Assumptions c16_group_limit.
 
 (* 3. Exactly the K nearest crawled peers when the limit is off, or when no
-   group holds more crawled peers than the limit.
-   PARTIAL: proved under the additional hypothesis that no crawled peer lists
-   the same IP group twice.  The property text does not have that hypothesis,
-   and without it the statement is false of the code: see the next theorem. *)
-Theorem c16_exact_when_diverse_partial :
+   group holds more crawled peers than the limit (a peer may list a group any
+   number of times). *)
+Theorem c16_exact_when_diverse :
   forall (c : crawl) (key : N) (K limit : nat),
     NoDup (map fst c) -> 1 <= K ->
-    (limit = 0 \/ ((forall g, group_size c g <= limit) /\
-                   (forall p a, In (p, a) c -> NoDup (addr_groups a)))) ->
+    (limit = 0 \/ forall g, group_size c g <= limit) ->
     get_closest (table_of c) key K limit = Ok (closest_n key (map fst c) K).
 Proof. exact exact_when_diverse. Qed.
-Print Assumptions c16_exact_when_diverse_partial.
+Print Assumptions c16_exact_when_diverse.
 
-(* One crawled peer with two addresses in one IP group, limit 1, K 1: the
-   group holds one peer, yet the answer is empty (dht.go:569 tests the size of
-   the group's set even when the peer is already in it). *)
-Theorem c16_exact_when_diverse_refuted :
-  exists (c : crawl) (key : N) (K limit : nat),
-    NoDup (map fst c) /\ 1 <= K /\ (forall g, group_size c g <= limit) /\
-    get_closest (table_of c) key K limit = Ok [] /\ closest_n key (map fst c) K = [5%N].
-Proof. exact exact_when_diverse_refuted. Qed.
-Print Assumptions c16_exact_when_diverse_refuted.
+(* 4. The limit the loop reads is the configured one (the option, else the
+   default [dlimit]); the bucket size is the option, else the default
+   [dbucket], never below 1, and exactly [dbucket] on the Amino prefix. *)
+Theorem c16_configured_limit_used :
+  forall dbucket dlimit o f, new_fullrt dbucket dlimit o = Some f ->
+    1 <= f_K f /\ f_limit f = configured_limit dlimit o /\
+    f_K f = match o_bucket o with Some k => k | None => dbucket end /\
+    (o_amino o = true -> f_K f = dbucket).
+Proof. exact new_fullrt_spec. Qed.
+Print Assumptions c16_configured_limit_used.
 
-(* 4. The limit the loop reads is the configured one: refuted.  Whatever the
-   options, the constructed client has limit 0 (dht.go:232-262 has no such
-   field in the literal). *)
-Theorem c16_constructor_limit_always_zero :
-  forall o f, new_fullrt o = Some f -> f_limit f = 0.
-Proof. exact constructor_limit_always_zero. Qed.
-Print Assumptions c16_constructor_limit_always_zero.
-Theorem c16_configured_limit_used_refuted :
-  exists o dflt f, new_fullrt o = Some f /\ configured_limit dflt o = 2 /\ f_limit f = 0.
-Proof. exact configured_limit_used_refuted. Qed.
-Print Assumptions c16_configured_limit_used_refuted.
-
-(* 5. Table swap against readers, every interleaving.  If the swap were one
-   step, every read would be the answer on the table of one completed crawl
-   (or on the initial empty table). *)
+(* 5. Table swap against readers: for every interleaving of crawl
+   completions, swaps and reads, every read is the answer on the table of one
+   completed crawl (or on the initial empty table), and the table is the last
+   installed crawl's. *)
 Theorem c16_swap_atomic_single_crawl :
-  forall evs s, frun fstep1 evs f_init = Some s ->
+  forall evs s, frun evs f_init = Some s ->
     Forall (fun r => let '(tbl, key, K, limit, ans) := r in
               (tbl = empty_table \/ exists c, In c (f_crawls s) /\ tbl = table_of c) /\
               ans = get_closest tbl key K limit) (f_reads s).
-Proof. exact swap_atomic_reads_single_crawl. Qed.
+Proof. exact swap_reads_single_crawl. Qed.
 Print Assumptions c16_swap_atomic_single_crawl.
-
-(* As coded (three separately locked steps): between crawls the table is the
-   last crawl's ... *)
-Theorem c16_swap_quiescent :
-  forall evs s, frun fstep3 evs f_init = Some s -> f_pending s = None ->
-    f_tbl s = match f_crawls s with [] => empty_table | c :: _ => table_of c end.
-Proof. exact swap_quiescent_table. Qed.
-Print Assumptions c16_swap_quiescent.
-
-(* ... but a reader between the steps gets an answer that is the answer of no
-   completed crawl, here with two peers of one group under limit 1. *)
-Theorem c16_swap_interleaving_refuted :
-  exists s tbl ans,
-    frun fstep3 sw_evs f_init = Some s /\
-    In (tbl, 0%N, 5, 1, Ok ans) (f_reads s) /\
-    (forall c, In c (f_crawls s) -> get_closest (table_of c) 0%N 5 1 <> Ok ans) /\
-    get_closest empty_table 0%N 5 1 <> Ok ans /\
-    length (filter (peer_in_group sw_old 7%N) ans) = 2.
-Proof. exact swap_interleaving_refuted. Qed.
-Print Assumptions c16_swap_interleaving_refuted.
+Theorem c16_swap_table :
+  forall evs s, frun evs f_init = Some s ->
+    f_tbl s = match (match f_pending s with Some _ => tl (f_crawls s) | None => f_crawls s end) with
+              | [] => empty_table | c :: _ => table_of c end.
+Proof. exact swap_table. Qed.
+Print Assumptions c16_swap_table.
 
 (* 6. The crawler, every schedule [evs] of hand-overs and result arrivals,
-   every network [net], every failure pattern ([net p = []]): when the loop
-   ends, the queried peers are exactly those reachable from the dialable seeds
-   through successful answers, there is one callback per query with the right
-   outcome, and each peer was queried once if the dialable seeds are distinct. *)
+   every network [net], every failure pattern ([net p = []]), every list of
+   starting peers (duplicates included): when the loop ends, the queried peers
+   are exactly those reachable from the dialable seeds through successful
+   answers, each was queried once, and there is one callback per query with the
+   right outcome. *)
 Theorem c16_crawl_once :
   forall (net : cnet) (par : nat) (seeds : list (N * bool)) (evs : list cev) (s : cstate),
     crun net par evs (crawl_init seeds) = Some s -> cfinished s = true ->
     (forall p, In p (c_disp s) <-> reachable net (dialable seeds) p) /\
     Permutation (map fst (c_cb s)) (c_disp s) /\
     (forall p b, In (p, b) (c_cb s) -> b = match net p with [] => false | _ => true end) /\
-    (NoDup (dialable seeds) -> NoDup (c_disp s)).
+    NoDup (c_disp s).
 Proof. exact crawl_once. Qed.
 Print Assumptions c16_crawl_once.
 
-(* Termination: no schedule is longer than 2*(seeds + reachable peers); while
+(* Termination: no schedule is longer than twice the number of reachable peers; while
    the loop condition holds an event is enabled (given a worker); the
    evaluation schedule is a schedule and ends. *)
 Theorem c16_crawl_bounded :
   forall net par seeds (U : list N) evs s,
     (forall p, reachable net (dialable seeds) p -> In p U) ->
     crun net par evs (crawl_init seeds) = Some s ->
-    length evs <= 2 * (length (dialable seeds) + length U).
+    length evs <= 2 * length U.
 Proof. exact crawl_bounded. Qed.
 Print Assumptions c16_crawl_bounded.
 Theorem c16_crawl_progress :
@@ -151,32 +129,18 @@ Theorem c16_crawl_exec_terminates :
   forall net par seeds (U : list N),
     1 <= par -> (forall p, reachable net (dialable seeds) p -> In p U) ->
     exists evs s,
-      crawl_exec (2 * (length (dialable seeds) + length U) + 1) net par (crawl_init seeds) = Ok s /\
+      crawl_exec (2 * length U + 1) net par (crawl_init seeds) = Ok s /\
       cfinished s = true /\ crun net par evs (crawl_init seeds) = Some s.
 Proof. exact crawl_exec_terminates. Qed.
 Print Assumptions c16_crawl_exec_terminates.
 
-(* A starting peer listed twice is queried twice and reported twice; and the
-   accelerated client does list a bootstrap peer twice as soon as a crawl has
-   found it (dht.go:360-366). *)
-Theorem c16_crawl_duplicate_seeds_refuted :
-  exists net par seeds evs s,
-    crun net par evs (crawl_init seeds) = Some s /\ cfinished s = true /\
-    c_disp s = [1%N; 1%N] /\ c_cb s = [(1%N, false); (1%N, false)].
-Proof. exact crawl_duplicate_seeds_refuted. Qed.
-Print Assumptions c16_crawl_duplicate_seeds_refuted.
-Theorem c16_reseed_duplicates :
-  forall (found : crawl) (bootstrap : list N) b,
-    In b bootstrap -> In b (map fst found) -> ~ NoDup (crawl_seeds found bootstrap).
-Proof. exact reseed_duplicates. Qed.
-Print Assumptions c16_reseed_duplicates.
-
-(* 7. Bulk operations: on a non-empty table with K + 2*limit > 0 neither the
-   chunk arithmetic nor the lookups panic or block; the groups are non-empty,
-   at most chunk-size long and concatenate to the keys. *)
+(* 7. Bulk operations: on every table, with K + 2*limit > 0, neither the chunk
+   arithmetic nor the lookups panic or block; the groups are non-empty, at
+   most chunk-size long and concatenate to the keys; on an empty table bulk
+   and single operations return an error. *)
 Theorem c16_bulk_no_panic :
   forall (t : table) (K limit : nat) (keys : list N),
-    t_kmap t <> [] -> 0 < K + 2 * limit -> exists r, bulk_send t K limit keys = Ok r.
+    0 < K + 2 * limit -> exists r, bulk_send t K limit keys = Ok r.
 Proof. exact bulk_no_panic. Qed.
 Print Assumptions c16_bulk_no_panic.
 Theorem c16_bulk_chunks :
@@ -185,42 +149,40 @@ Theorem c16_bulk_chunks :
               Forall (fun x => x <> [] /\ length x <= Z.to_nat c) g.
 Proof. exact (@divide_by_chunk_size_ok N). Qed.
 Print Assumptions c16_bulk_chunks.
-(* On an empty table a bulk operation with at least one key panics. *)
-Theorem c16_bulk_empty_table_refuted :
-  forall K limit k keys,
-    bulk_send (table_of []) K limit (k :: keys) = Panic "integer divide by zero".
-Proof. exact bulk_empty_table_panics. Qed.
-Print Assumptions c16_bulk_empty_table_refuted.
-(* Single operations on an empty table return an error, whatever K and limit. *)
+Theorem c16_bulk_empty_table_errors :
+  forall K limit keys, keys <> [] -> bulk_send (table_of []) K limit keys = Ok RErr.
+Proof. exact bulk_empty_table_errors. Qed.
+Print Assumptions c16_bulk_empty_table_errors.
 Theorem c16_single_empty_table_errors :
   forall key K limit, single_send (table_of []) key K limit = Ok RErr.
 Proof. exact single_empty_table_errors. Qed.
 Print Assumptions c16_single_empty_table_errors.
 
-(* 8. Missing construction options.  Without a BucketSize option on a
-   non-Amino prefix the constructor succeeds with K = 0 and limit = 0, and on
-   any non-empty table the lookup never returns, however long it runs. *)
-Theorem c16_missing_options_refuted :
-  forall o, o_amino o = false -> o_bucket o = None ->
-    exists f, new_fullrt o = Some f /\ f_K f = 0 /\ f_limit f = 0 /\
-    forall (c : crawl) key fuel, c <> [] ->
-      get_closest_fuel fuel (table_of c) key (f_K f) (f_limit f) =
-      Blocked "GetClosestPeers: paging loop still running".
-Proof. exact missing_options_spin. Qed.
-Print Assumptions c16_missing_options_refuted.
-(* K = 0 with a positive limit: the bound [len(peers) == K] is tested after
-   the append and never holds; the whole table comes back. *)
-Theorem c16_k0_returns_whole_table_refuted :
-  exists (c : crawl) key limit l, NoDup (map fst c) /\
-    get_closest (table_of c) key 0 limit = Ok l /\ length l = 2.
-Proof. exact k0_returns_whole_table_refuted. Qed.
-Print Assumptions c16_k0_returns_whole_table_refuted.
+(* 8. Missing construction options.  A bucket size below 1 is refused; without
+   the option the default is used; and whatever the options, the lookups of a
+   client that was constructed return on every table (no panic, no spin). *)
+Theorem c16_missing_options_rejected :
+  forall dbucket dlimit o k, o_bucket o = Some k -> k < 1 -> new_fullrt dbucket dlimit o = None.
+Proof. exact new_fullrt_rejects_small. Qed.
+Print Assumptions c16_missing_options_rejected.
+Theorem c16_missing_bucket_defaults :
+  forall dbucket dlimit o, o_bucket o = None -> 1 <= dbucket ->
+    new_fullrt dbucket dlimit o = Some {| f_K := dbucket; f_limit := configured_limit dlimit o |}.
+Proof. exact new_fullrt_default_bucket. Qed.
+Print Assumptions c16_missing_bucket_defaults.
+Theorem c16_constructed_lookup_returns :
+  forall dbucket dlimit o f (t : table) key, new_fullrt dbucket dlimit o = Some f ->
+    exists l, get_closest t key (f_K f) (f_limit f) = Ok l.
+Proof. exact constructed_lookup_returns. Qed.
+Print Assumptions c16_constructed_lookup_returns.
 
-(* Non-vacuity: a crawl of five peers in three IP groups meeting the
-   hypotheses of 1-3 whose answer skips a peer (limit 1), one meeting the
-   diversity hypothesis of 3, and a crawl graph with a failure that ends. *)
+(* Non-vacuity: a crawl of five peers in three IP groups (one peer with two
+   addresses in one group) meeting the hypotheses of 1-3 whose answer skips a
+   peer (limit 1), the diversity hypothesis of 3 at limit 2, a constructor call
+   that succeeds, and a crawl graph with a failure, a seed listed twice and an
+   address-less seed that ends. *)
 Definition ex_crawl : crawl :=
-  [(12%N, [Some 1%N]); (9%N, [Some 1%N; None]); (3%N, [Some 2%N; Some 3%N]); (6%N, []); (15%N, [Some 3%N])].
+  [(12%N, [Some 1%N]); (9%N, [Some 1%N; None; Some 1%N]); (3%N, [Some 2%N; Some 3%N]); (6%N, []); (15%N, [Some 3%N])].
 Definition ex_net : cnet :=
   fun p => match p with 1%N => [2%N; 3%N] | 2%N => [1%N; 4%N] | _ => [] end.
 Example c16_nonvacuous :
@@ -228,9 +190,9 @@ Example c16_nonvacuous :
   get_closest (table_of ex_crawl) 8%N 3 1 = Ok [9%N; 15%N; 6%N] /\
   closest_n 8%N (map fst ex_crawl) 3 = [9%N; 12%N; 15%N] /\
   (forall g, group_size ex_crawl g <= 2) /\
-  (forall p a, In (p, a) ex_crawl -> NoDup (addr_groups a)) /\
   get_closest (table_of ex_crawl) 8%N 3 2 = Ok [9%N; 12%N; 15%N] /\
-  exists s, crawl_exec 20 ex_net 2 (crawl_init [(1%N, true); (7%N, false)]) = Ok s /\
+  new_fullrt 20 3 {| o_amino := false; o_bucket := None; o_limit := Some 1 |} = Some {| f_K := 20; f_limit := 1 |} /\
+  exists s, crawl_exec 20 ex_net 2 (crawl_init [(1%N, true); (7%N, false); (1%N, true)]) = Ok s /\
             c_disp s = [1%N; 2%N; 3%N; 4%N] /\
             c_cb s = [(1%N, true); (2%N, true); (3%N, false); (4%N, false)].
 Proof.
@@ -243,8 +205,6 @@ Proof.
     destruct (N.eq_dec g 3) as [->|H3]; [vm_compute; lia|].
     unfold peer_in_group, nmem. cbn.
     apply N.eqb_neq in H1, H2, H3. rewrite ?H1, ?H2, ?H3. cbn. lia. }
-  split.
-  { intros p a [H|[H|[H|[H|[H|[]]]]]]; inversion H; subst; cbn; repeat constructor; cbn; intuition discriminate. }
-  split; [vm_compute; reflexivity|].
+  split; [vm_compute; reflexivity|]. split; [reflexivity|].
   eexists. split; [vm_compute; reflexivity|]. split; reflexivity.
 Qed.
